@@ -183,6 +183,8 @@ def _vec(cells, dtype="uint8", fill=None):
     def val(c):
         if isinstance(c, int):
             return c
+        if c[0] == "n":
+            return float("nan")           # an empty cell of a flag column read back from a table
         return float(F(c[1])) if c[0] == "f" else c[1]
     data = [val(c) for c in cells]
     mask = [isinstance(c, list) and c[0] == "m" for c in cells]
@@ -245,7 +247,7 @@ def gen_compare(tier, rng):
     wide = {"int16": [1, 2, 3, 4, 9, 0, -32767, 260, 265, -255, ["m", 4]],
             "int32": [1, 3, 4, 9, -2147483647, 65537, 260, 513, ["m", 1]],
             "int64": [1, 2, 4, 9, 260, 2 ** 32 + 4, -252, ["m", 3]],
-            "float64": [1, 2, 3, 4, 9, ["f", "3/2"], ["f", "9/2"], ["f", "7/2"], 260, -247, ["m", 4]]}
+            "float64": [1, 2, 3, 4, 9, ["f", "3/2"], ["f", "9/2"], ["f", "7/2"], 260, -247, ["m", 4], ["n", 0], ["n", 0]]}
     for _ in range(200 if tier == "quick" else 2000):
         k, n = rng.randint(1, 4), rng.randint(1, 8)
         dts = [rng.choice(["uint8", "int16", "int32", "int64", "float64"]) for _ in range(k)]
